@@ -4,11 +4,13 @@
 ID=$1; shift; CHECKS=${@:-$ID}
 W=/tmp/wt/$ID; S=/tmp/wt/$ID-scratch; D=/verif/seeded/$ID
 mkdir -p $D; cp $S/patch.diff $S/meta.json $D/ 2>/dev/null; cp $S/demo.* $S/build.sh $D/ 2>/dev/null
+if [ -z "$SKIP_DEMO" ]; then   # SKIP_DEMO=1: re-run of the checks only (the demonstration was already run both ways and stored)
 cd $S
 echo "== demo WITH change"; (bash ./build.sh >/dev/null 2>&1; ./demo > $D/demo_with_change.out 2>&1; echo "exit=$?" | tee -a $D/demo_with_change.out)
 git -C $W apply -R $D/patch.diff
 echo "== demo WITHOUT change"; (bash ./build.sh >/dev/null 2>&1; ./demo > $D/demo_without_change.out 2>&1; echo "exit=$?" | tee -a $D/demo_without_change.out)
 git -C $W apply $D/patch.diff
+fi
 cd /verif
 exec 9>/verif/build/.repo.lock; flock 9   # one modifier of /repo's working tree at a time (shared with revert_campaign.py)
 git -C /repo apply $D/patch.diff || { echo "PATCH DOES NOT APPLY"; exit 2; }
